@@ -124,7 +124,7 @@ class C15(Harness):
         out = []
         for tname, (kw, vals) in type_table().items():
             for vi, v in enumerate(vals):
-                for level in ('instance', 'class'):
+                for level in ('instance', 'class', 'follow'):
                     for mode in ('all', 'subset', 'subsetiter', 'value', 'desersubset', 'emptysubset', 'twice'):
                         out.append({'t': tname, 'vi': vi, 'level': level, 'mode': mode})
         names = list(type_table())
@@ -163,6 +163,17 @@ class C15(Harness):
             except Exception as e:
                 return Result([V('valid-state-rejected', 'declaring %s(default=%r) raised %r' % (tname, v, e), **key)], outcome='x')
             target = X
+        elif level == 'follow':
+            # the instance never sets p; it gets its own copy of the Parameter object, then the class default is replaced: the valid state
+            # to be serialized is what attribute access gives on the instance now
+            X = type('X', (param.Parameterized,), {'p': make_param(param, tname, kw, first, v is None), 'other': param.Integer(3)})
+            try:
+                target = X()
+                target.param['p'], target.param.p.default
+                X.p = v
+                v = target.p
+            except Exception as e:
+                return Result([V('valid-state-rejected', '%s: class-level assignment of %r raised %r' % (tname, v, e), **key)], outcome='x')
         else:
             X = type('X', (param.Parameterized,), {'p': make_param(param, tname, kw, first, v is None), 'other': param.Integer(3)})
             try:
